@@ -128,6 +128,12 @@ pub assume_specification<T, E, F>[core::result::Result::<T, E>::or::<F>](r: core
     ensures out == (match r { Ok(v) => Ok::<T, F>(v), Err(_) => res });
 pub assume_specification<T, E, U>[core::result::Result::<T, E>::and::<U>](r: core::result::Result<T, E>, res: core::result::Result<U, E>) -> (out: core::result::Result<U, E>)
     ensures out == (match r { Ok(_) => res, Err(e) => Err::<U, E>(e) });
+pub assume_specification<T, U, F: FnOnce(T) -> U>[core::option::Option::<T>::map_or::<U, F>](o: Option<T>, default: U, f: F) -> (out: U)
+    requires o is Some ==> f.requires((o->Some_0,)),
+    ensures o is None ==> out == default, o is Some ==> f.ensures((o->Some_0,), out);
+pub assume_specification<T, U, D: FnOnce() -> U, F: FnOnce(T) -> U>[core::option::Option::<T>::map_or_else::<U, D, F>](o: Option<T>, default: D, f: F) -> (out: U)
+    requires o is Some ==> f.requires((o->Some_0,)), o is None ==> default.requires(()),
+    ensures o is None ==> default.ensures((), out), o is Some ==> f.ensures((o->Some_0,), out);
 pub assume_specification<T, F: FnOnce(T) -> bool>[core::option::Option::<T>::is_some_and](o: Option<T>, f: F) -> (out: bool)
     requires o is Some ==> f.requires((o->Some_0,)),
     ensures o is None ==> !out, o is Some ==> f.ensures((o->Some_0,), out);
